@@ -243,6 +243,26 @@ class DoomedGen:
         return _finish(op, 'depth:directory-at-level-9', False, 'depth')
 
     # ---- duplicates (structurally invalid) --------------------------------------
+    def duplicate_rr_name(self):
+        """A second entry with a Rock Ridge name its directory already has (the ISO9660 identifier is new)."""
+        m, r = self.m, self.r
+        if not m.rr:
+            return None
+        cands = [(p, n) for p, n in m.iter_ns('iso') if n.rr and not n.reloc]
+        if not cands:
+            return None
+        p, n = r.choice(cands)
+        parent = M.split(p)[0]
+        op = _fresh(self.g, r.choice(('add_fp', 'add_dir')), nss=['iso'])
+        if op is None or 'iso' not in op:
+            return None
+        leaf = M.split(op['iso'])[1]
+        if not M._valid_new(m, 'iso', M.join(parent, leaf)) or m.relocates(M.join(parent, leaf)):
+            return None
+        op['iso'] = M.join(parent, leaf)
+        op['rr'] = n.rr
+        return _finish(op, 'duplicate:rock-ridge-name-in-one-directory:%s' % op['op'], False, 'duplicate-rr-name')
+
     def duplicate(self):
         m, r = self.m, self.r
         nss = [ns for ns in m.roots]
@@ -569,7 +589,7 @@ class DoomedGen:
             'missing_parent', 'wrong_type_rm', 'wrong_type_rm', 'eltorito_protected', 'wrong_extension', 'bad_boot', 'bad_hybrid', 'bad_relocated_name', 'link_to_directory', 'removed_name', 'removed_name', 'state',
             'io_fault_boot', 'io_fault_write')
 
-    NAME_RULE_GENS = ('bad_iso_file_name', 'bad_iso_file_name', 'bad_iso_dir_name', 'joliet_too_long', 'depth', 'duplicate', 'duplicate', 'duplicate')
+    NAME_RULE_GENS = ('bad_iso_file_name', 'bad_iso_file_name', 'bad_iso_dir_name', 'joliet_too_long', 'depth', 'duplicate', 'duplicate', 'duplicate', 'duplicate_rr_name')
 
     def any(self, kinds=None):
         kinds = kinds or self.GENS
